@@ -75,6 +75,22 @@ def derivedPss (container : Option Rule) (r : Rule) : Bool :=
   | some _, none => false
   | none, _ => r.pss
 
+/-! regions of the known findings that concern the order (predicates on the kinds of the list before the call) -/
+
+/-- C09-add-variables-scan: ordered insert of @variables into a list without one, where an @charset/@import/@namespace
+rule stands after the first rule of `varsFirstBefore` (the scan for the insertion point starts at the front and does
+not skip the rules that must stay ahead) -/
+def varsScanBug (l : List Kind) : Bool :=
+  !hasKind [.vars] l && match firstIdx Gen.varsFirstBefore l with
+    | some j => hasKind [.charset, .imp, .ns] (l.drop j)
+    | none => false
+
+/-- C09-inorder-index-not-ignored: the scan finds no rule that fixes the insertion point, and the caller's `index`
+is used as it is -/
+def orderedFallback (l : List Kind) (k : Kind) : Bool :=
+  (k = .ns && !hasKind [.ns] l && (firstIdx Gen.nsFirstBefore (l.drop (afterLastOf Gen.nsStartAfter l))).isNone) ||
+  (k = .vars && !hasKind [.vars] l && (firstIdx Gen.varsFirstBefore l).isNone)
+
 structure Valid (st : St) : Prop where
   top : TopOK st.rules
   kids : ∀ r ∈ st.rules, r.kidsOK = true
